@@ -280,3 +280,50 @@ def run(check):
     r_d.violate('encode not deterministic', enc, n, 'encode() depends on `%s` besides its arguments' % short(n))
   else:
     r_d.ok('encode() calls only pure string/hash functions and reads no module state', enc.loc())
+  rule_dir_before_plugin(check, cx, check.rule('R-C14-dir-before-plugin', 1, 'the database plug-in is built after LOCAL_DATA_DIR (and the other settings it copies) got their final value'))
+
+
+def rule_dir_before_plugin(check, cx, rule):
+  """the database plug-in copies settings.LOCAL_DATA_DIR (and its other options) once, in its constructor: CarbonCacheOptions.
+  postOptions builds it only after the last statement that rewrites one of those settings (the `cleanpath()` normalisation that
+  expands `~`).  Built earlier, the plug-in keeps the raw string and every .wsp file lands under `<cwd>/~/...`, outside the
+  configured data directory."""
+  repo = check.repo
+  dbmod = repo.module('carbon.database')
+  read = set()
+  for f in dbmod.all_functions():
+    if f.name == '__init__' and f.cls is not None and len(f.params) >= 2:
+      sp = f.params[1]
+      read |= {x.attr for x in ast.walk(f.node) if isinstance(x, ast.Attribute) and isinstance(x.value, ast.Name) and x.value.id == sp}
+      read |= {x.slice.value for x in ast.walk(f.node) if isinstance(x, ast.Subscript) and isinstance(x.value, ast.Name) and
+               x.value.id == sp and isinstance(x.slice, ast.Constant)}
+  fn = cx.fn('carbon.conf', 'CarbonCacheOptions.postOptions')
+  if not rule.require(fn is not None and 'LOCAL_DATA_DIR' in read, 'CarbonCacheOptions.postOptions / the plug-in constructors reading '
+                      'settings.LOCAL_DATA_DIR not found'):
+    return
+  g = cx.cfg(fn)
+  ctor = [n for n in g.nodes if n.kind == 'stmt' and isinstance(n.ast, ast.Assign) and
+          any((dotted(t) or '').endswith('state.database') for t in n.ast.targets)]
+  if not rule.require(len(ctor) >= 1, 'postOptions does not assign state.database'):
+    return
+
+  def rewrites(n):
+    a = n.ast
+    if n.kind != 'stmt' or not isinstance(a, (ast.Assign, ast.AugAssign)):
+      return None
+    for t in (a.targets if isinstance(a, ast.Assign) else [a.target]):
+      if isinstance(t, ast.Subscript) and isinstance(t.value, ast.Name) and t.value.id == 'settings' and \
+         isinstance(t.slice, ast.Constant) and t.slice.value in read:
+        return t.slice.value
+      if isinstance(t, ast.Attribute) and isinstance(t.value, ast.Name) and t.value.id == 'settings' and t.attr in read:
+        return t.attr
+    return None
+  for c in ctor:
+    later = [n for n in g.reach(g.after(c), normal_only=True) if rewrites(n)]
+    if later:
+      n = sorted(later, key=lambda x: x.lineno)[0]
+      rule.violate('plug-in built before its settings are final', fn, c.ast, 'state.database is built at line %d, but settings[%r] is '
+                   'rewritten afterwards (line %d: `%s`): the plug-in has already copied the raw value, so files are created under a '
+                   'directory that is not the configured LOCAL_DATA_DIR' % (c.lineno, rewrites(n), n.lineno, short(n.ast, 60)))
+    else:
+      rule.ok('plug-in built after the last rewrite of the settings it copies', fn.loc(c.ast), '%d settings read by the constructors' % len(read))
